@@ -258,6 +258,53 @@ def streams(tier, rng):
                 return res
             orc = orc2
         yield {'name': name, 'cases': cases, 'project': project, 'oracle': orc, 'nontrivial': nontrivial}
+    # several units in one message: the error bookkeeping is per unit
+    cases, info = [], {}
+    for _ in range(3000 if tier == 'quick' else 40000):
+        k = rng.choice([2, 2, 3])
+        table, units, per = [], [], []
+        for u in range(k):
+            nread = rng.choice([0, 1, 1, 2])
+            ops = []
+            for i in range(nread):
+                kd = rng.choice(READERS)
+                m = 1 if rng.random() < 0.6 else 0
+                ops.append('PTEXT:%d:%d' % (rng.choice([8, 64]), m) if kd == 'PTEXT' else '%s:%d' % (kd, m))
+            if rng.random() < 0.2:
+                ops.append('RETERR')
+            script = ';'.join(ops) if ops else '-'
+            items = [rng.choice(POOL) for _ in range(rng.choice([0, 1, 1, 2, 3]))]
+            name = [b'CMA', b'CMB', b'CMC'][u]
+            table.append((u + 1, name, script))
+            units.append(name + render_list(rng, items))
+            per.append((script, items))
+        if rng.random() < 0.3:
+            j = rng.randrange(k)
+            units[j] = b'NOSUCH 1'
+            per[j] = None
+        msg = b';'.join(units) + b'\n'
+        c = gen.scenario(256, 32, table, [('I', msg)])
+        cases.append(c)
+        info[c] = (per, msg)
+
+    def morc(case, out):
+        if out.startswith('X') or case not in info:
+            return []
+        per, msg = info[case]
+        we = []
+        for x in per:
+            if x is None:
+                we.append(-113)
+            else:
+                we += expected(x[0], x[1])[1]
+        evs = vf.events(out)
+        if '|' in evs:
+            evs = evs[:evs.index('|')]
+        ecodes = [int(e[1:]) for e in evs if e[0] == 'E' and e != 'E0']
+        if ecodes != we:
+            return [('error-code-units', 'message %r: queued errors %s, unit by unit the property gives %s' % (msg, ecodes, we))]
+        return []
+    yield {'name': 'multi-unit', 'cases': cases, 'project': project, 'oracle': morc, 'nontrivial': lambda c, o: c if ' E-' in o else None}
     cases, want = retval_cases(rng, 1500 if tier == 'quick' else 20000)
 
     def orc3(case, out):
